@@ -88,6 +88,9 @@ func TestMain(m *testing.M) {
 	glue.SilenceKlog()
 	glue.LoadRegistry()
 	if rp := ev.LoadReplay(); rp != nil {
+		if rp.Phase == "real_client" {
+			ev.RunReplay(rp, runRealClient)
+		}
 		ev.RunReplay(rp, runCase)
 	}
 	rec = ev.New("C19", "streams of 1..10 IPFIX messages (template messages; data messages with 0..20 records) whose records draw any subset and order of the elements the two shipped proto schemas know plus some they do not, IPv4 or IPv6, integers over their full range, strings valid UTF-8, published through PublishIPFIXMessages into sarama's mock async producer; each payload is checked by a hand-written protobuf wire reader keyed by the field numbers of flow.proto and by the consumer-side decoder; non-trivial = >= 2 data records in the stream and a record with >= 3 schema fields; distinct by hash of the case",
